@@ -779,7 +779,7 @@ class Builder:
                     name = "vx_%s%s" % (mm.group(1), "_char" if mm.group(2) else "")
                     edits.append(Edit(a + mm.start(), a + mm.start(1) + len(mm.group(1)), [Seg("." + name, "repo", fn=qual)]))
                     self.count("R5")
-                for mm in re.finditer(r"\.\s*(strip_suffix|eq_ignore_ascii_case|is_ascii|as_bytes)\s*\(", m[a:b]):
+                for mm in re.finditer(r"\.\s*(strip_suffix|eq_ignore_ascii_case|is_ascii|as_bytes|to_ascii_lowercase)\s*\(", m[a:b]):
                     if mm.group(1) == "as_bytes" and re.match(r"\s*\)\s*\[", m[a + mm.end():a + mm.end() + 8]):
                         continue  # `s.as_bytes()[i]` is rule R5str's (vx_byte)
                     edits.append(Edit(a + mm.start(), a + mm.end(), [Seg(".vx_%s(" % mm.group(1), "repo", fn=qual)]))
